@@ -1228,6 +1228,28 @@ class SymEvaluator:
         raise AnalysisError(f"symeval: external call {name}")
 
     def _method(self, base, attr, args, kw, node):
+        if isinstance(base, list) and attr in ("append", "extend", "insert"):
+            # local list being assembled (paths own their lists: deep-copied on fork)
+            if attr == "append":
+                base.append(args[0])
+            elif attr == "extend":
+                if not isinstance(args[0], (list, tuple)):
+                    raise AnalysisError("symeval: extend with a symbolic sequence")
+                base.extend(args[0])
+            else:
+                base.insert(int(_num(args[0]).const_value()), args[1])
+            return NONE
+        if isinstance(base, SStr) and base.known is not None and attr == "join" and args \
+                and isinstance(args[0], (list, tuple)):
+            parts = []
+            for i, a in enumerate(args[0]):
+                if i and base.known:
+                    parts.append(SStr(repr(base.known), known=base.known))
+                parts.append(a if isinstance(a, SStr) else Fmt(a, None))
+            if all(isinstance(x, SStr) and x.known is not None for x in parts):
+                k = "".join(x.known for x in parts)
+                return SStr(repr(k), known=k)
+            return SStr("fstring", parts=parts)
         if isinstance(base, (SStr, Param, SAttr)):
             path = base.path if isinstance(base, SStr) else _show(base)
             known = base.known if isinstance(base, SStr) else None
